@@ -130,7 +130,7 @@ CLAIMS = {
               '"over a limit => every resident entry is above the evictable boundary" as postcondition of insert/try_evict, '
               '"drained => nothing at or below the boundary" as postcondition of drain_evictable; the invariant is carried through RaftLogStateMachine::apply and every RaftLog write op '
               '(an accepted append inserts a fresh key: invariant I7); accounting is stated as "slack" (counter minus resident sum): every cache method leaves the slack unchanged UNCONDITIONALLY, insert adds exactly the size of a replaced duplicate; generic in T: Types, for all cache limits and all boundaries.'),
-        note=TRUST + ' The cache RwLock is sequentialised (rule E6): each method is proved for an arbitrary boundary at entry, which is the only field the worker thread writes. RaftLog::stat() is under contract (reported count/size/limits/boundary are the cache fields; the per-closed-chunk list is an assumed iterator chain).',
+        note=TRUST + ' The cache RwLock is sequentialised (rule E6): each method is proved for an arbitrary boundary at entry, which is the only field the worker thread writes. RaftLog::stat() is under contract (reported count/size/limits/boundary are the cache fields; the per-closed-chunk list is an assumed iterator chain). wait_worker_idle is under contract (it returns only after the shared done counter was observed at or above the number of requests sent; that the counter means "finished" is the assumed cross-thread meaning), drain_cache_evictable leaves nothing at or below the boundary.',
         technique='Verus function contracts + data-structure invariant on extracted code',
         design='5 C15',
     ),
